@@ -421,7 +421,7 @@ def step (st : State) (line : String) : State × String :=
       if okRest then ({ st with disturbed := true }, if hasRr c p then echo else "noproto") else (st, "bad-op")
     | _, _, _, _ => (st, "bad-op")
   | ["respond", i, p, k, len, tag] =>
-    match built st i, k.toNat?, len? len, tag? tag with
+    match built st i, (if k = "n" then some 0 else k.toNat?), len? len, tag? tag with
     | some (_, _, c), some _, some _, some _ => ({ st with disturbed := true }, if hasRr c p then echo else "noproto")
     | _, _, _, _ => (st, "bad-op")
   | ["drop_subs", i, p] =>
